@@ -48,8 +48,10 @@ Print Assumptions C06_wait_sound.
 
 (* never hanging, as deadlock freedom: in every reachable state with no ready callback and no pending
    external completion (helper thread / process), every submitted job has returned and a pending
-   experiment.wait() has completed - for all workloads in which a token request is between 1 and
-   the total of its token, all schedules, all submission histories *)
+   experiment.wait() has completed - for all workloads in which a token request is at least 1, all
+   schedules, all submission histories.  Nothing is assumed about the size of the requests (`wf` only
+   says that dependencies point to earlier jobs and that tokens exist): a job that asks more of a token
+   than its total is refused at submission (a963860; the guard `fits` of LSubmit, next two theorems) *)
 Theorem C06_no_hang : forall W s, wf W = true -> posreq W -> reachable W s ->
   queue s = [] -> has_pending s W = false ->
   (forall j, spawned (pc (jobs s j)) = true -> exists r, pc (jobs s j) = PReturned r) /\
@@ -74,3 +76,70 @@ Theorem C06_abort_race_refuted : exists W ls s j, wf W = true /\ steps_prefix W 
   (forall t, avail s t = total W t) /\ wst s = WBlocked.
 Proof. exact abort_race_refuted. Qed.
 Print Assumptions C06_abort_race_refuted.
+
+(* ------------------------------------------------------------------ start attempts (audit finding 2) *)
+(* the refusal at submission (a963860): a job whose requests on some token add up to more than its total
+   is not accepted, and every job that was accepted fits *)
+Theorem C06_oversubscribed_refused : forall W s j, fits W j = false -> step W s (LSubmit j) = None.
+Proof. exact oversubscribed_refused. Qed.
+Print Assumptions C06_oversubscribed_refused.
+
+Theorem C06_submitted_fits : forall W s j, reachable W s -> pc (jobs s j) <> PNot -> fits W j = true.
+Proof. exact submitted_fits. Qed.
+Print Assumptions C06_submitted_fits.
+
+(* without that refusal (`step5`, `reach5`: every other repair in place): a job is only launched when
+   every token can give, at that moment, all that the job asks of it; hence a job that asks more than a
+   total is never launched *)
+Theorem C06_launch_needs_room : forall W s l s' j t, wf W = true -> posreq W -> reach5 W s -> step5 W s l = Some s' ->
+  launches (jobs s' j) <> launches (jobs s j) ->
+  (sumreq (deps W j) t <= avail s t)%nat /\ (avail s t <= total W t)%nat.
+Proof. exact launch_needs_room. Qed.
+Print Assumptions C06_launch_needs_room.
+
+Theorem C06_oversubscribed_never_launched : forall W s j t, wf W = true -> posreq W -> reach5 W s ->
+  (total W t < sumreq (deps W j) t)%nat -> launches (jobs s j) = 0%nat.
+Proof. exact oversubscribed_never_launched. Qed.
+Print Assumptions C06_oversubscribed_never_launched.
+
+(* ... and the scheduler of 027db70 never came to rest on such a job: one job with two requests of 1 on a
+   token of 1 (each request within the total); once submitted it is never launched, never returns, and
+   no reachable state is quiescent, whatever the schedule *)
+Theorem C06_livelock_refuted : exists W, wf W = true /\ posreq W /\
+  (exists s, reach5 W s /\ spawned (pc (jobs s 0)) = true) /\
+  forall s, reach5 W s -> spawned (pc (jobs s 0)) = true ->
+    launches (jobs s 0) = 0%nat /\ (forall r, pc (jobs s 0) <> PReturned r) /\
+    ~ (queue s = [] /\ has_pending s W = false).
+Proof. exact livelock_refuted. Qed.
+Print Assumptions C06_livelock_refuted.
+
+(* with the refusal: a start attempt of job j only fails because another job holds, at that moment, part
+   of the token it stopped on - a job whose process is running or whose release is under way - *)
+Theorem C06_abort_blames_other : forall W s j i t c av hd, wf W = true -> posreq W -> reachable W s ->
+  fits W j = true -> pc (jobs s j) = PWoken ALockIn ->
+  acquire_l (avail s) (held (jobs s j)) (deps W j) 0 = (av, hd, Some i) ->
+  nth_error (deps W j) i = Some (DTok t c) ->
+  exists k, k <> j /\ (k < njobs W)%nat /\ (hcount (held (jobs s k)) t > 0)%nat /\
+            exists a, pc (jobs s k) = PExt a \/ pc (jobs s k) = PWoken a.
+Proof. exact abort_blames_other. Qed.
+Print Assumptions C06_abort_blames_other.
+
+(* ... so that when nobody else holds anything the start succeeds *)
+Theorem C06_calm_start_succeeds : forall W s j, wf W = true -> posreq W -> reachable W s ->
+  fits W j = true -> pc (jobs s j) = PWoken ALockIn ->
+  (forall k, k <> j -> held (jobs s k) = []) ->
+  exists av hd, acquire_l (avail s) (held (jobs s j)) (deps W j) 0 = (av, hd, None).
+Proof. exact calm_start_succeeds. Qed.
+Print Assumptions C06_calm_start_succeeds.
+
+(* progress: no infinite run is made only of ready callbacks and of completions other than the delivery of
+   `lock (aenter)` to a waiting job (a start attempt).  Start attempts are the one thing that can repeat:
+   a fitting job retries while another job holds part of its token (proofs/Sched_live.v, ex_busy_retry);
+   that ends when the holder exits, which is an assumption on the environment (processes end, completions
+   are delivered) and is not proved here.  Together with C06_no_hang: a run that stops has ended well,
+   and a run can only go on for ever by retrying starts while some process runs. *)
+Theorem C06_inflight_terminates : forall W (f : nat -> state) (ls : nat -> label), wf W = true ->
+  reachable W (f 0%nat) ->
+  (forall n, step W (f n) (ls n) = Some (f (S n)) /\ inflight (f n) (ls n)) -> False.
+Proof. exact inflight_terminates. Qed.
+Print Assumptions C06_inflight_terminates.
